@@ -66,6 +66,7 @@ type Rec struct {
 	Et    string  `json:"et,omitempty"`
 	Cls   string  `json:"cls"`
 	Out   string  `json:"out"`
+	Alt   string  `json:"alt,omitempty"` // a second allowed exception class ("" = none)
 	Rk    string  `json:"rk"`
 	Val   []int64 `json:"val"`
 	Post  []int64 `json:"post"`
@@ -354,7 +355,7 @@ func verdict(rec *Rec, o *obs) string {
 		if o.Outcome == "ok" {
 			return "no-exception"
 		}
-		if !o.excIsA(rec.Out) {
+		if !o.excIsA(rec.Out) && !(rec.Alt != "" && o.excIsA(rec.Alt)) {
 			return strings.TrimPrefix(o.Outcome, "exc:")
 		}
 	}
@@ -409,12 +410,12 @@ func findingKey(rec *Rec, v variant, form, div string) string {
 	}
 	cls := rec.Cls
 	bigint := strings.Contains(rec.Cls, "big") && v.Big != 0
-	unsupported := rec.Out == "ok" && div == "TypeError" && rec.Op != "Compare"
+	unsupported := rec.Out != "TypeError" && div == "TypeError" && rec.Op != "Compare"
 	switch {
-	case bigint:
-		cls = "int=bigint"
 	case unsupported:
 		cls = ""
+	case bigint:
+		cls = "int=bigint"
 	default:
 		cls = strings.Replace(cls, ",big", "", 1)
 		if strings.Contains(rec.Cls, "badkey") {
@@ -774,8 +775,12 @@ func render(idx int, rec *Rec, v variant, form string) string {
 	}
 	w("        %s\n", stmt)
 	switch rec.Rk {
-	case "list", "tuple", "bytes", "range":
+	case "list", "tuple", "bytes":
 		w("        print(%d, 'ok', isinstance(r, %s), list(r))\n", idx, rec.Rk)
+	case "range":
+		// a wrongly computed range may be astronomically long: read it with a bound
+		w("        out = []\n        for e in r:\n            out.append(e)\n            if len(out) > 40:\n                break\n")
+		w("        print(%d, 'ok', isinstance(r, range), out)\n        print(%d, 'len', len(r) == len(out))\n", idx, idx)
 	case "str":
 		w("        print(%d, 'ok', isinstance(r, str), [ord(ch) for ch in r])\n", idx)
 	case "int":
@@ -802,7 +807,7 @@ func render(idx int, rec *Rec, v variant, form string) string {
 	if rec.Yt != "" && rec.Yt != "self" {
 		w("    print(%d, 'ypost', %s)\n", idx, ints("y", rec.Yt))
 	}
-	if rec.T == "list" && rec.Rk != "none" && rec.Rk != "bool" && rec.Rk != "int" && rec.Rk != "str" {
+	if rec.T == "list" && (rec.Rk == "list" || rec.Rk == "items") {
 		// changing the operand must not show through the result
 		w("    if r is not None:\n        before = list(r)\n        x.append(-8)\n        print(%d, 'indep', list(r) == before)\n", idx)
 	}
@@ -847,6 +852,10 @@ func parseSrc(idx int, out string) *obs {
 				o.Post = &pv
 			} else {
 				o.Ypost = &pv
+			}
+		case "len":
+			if f[1] != "True" && o.Res != nil {
+				o.Res.Bad = "len(result) disagrees with its items"
 			}
 		case "indep":
 			if f[1] != "True" {
@@ -926,7 +935,7 @@ func main() {
 	}
 
 	// 1. design check: algorithmic = declarative
-	mc := env.MustTLC(common.TLCRun{Dir: "C13", Module: "PySeqMC", Config: "mc_" + cfgSuffix + ".cfg", Timeout: 12 * time.Minute})
+	mc := env.MustTLC(common.TLCRun{Dir: "C13", Module: "PySeqMC", Config: "mc_" + cfgSuffix + ".cfg", Timeout: 40 * time.Minute})
 	if len(mc.Violations) > 0 || !mc.Finished {
 		common.Inconclusive("property=C13 the design check of spec/lib/PySeq.tla did not pass (spec/C13/PySeqMC, mc_%s.cfg): %v\n%s", cfgSuffix, mc.Violations, mc.Stdout)
 	}
@@ -1054,7 +1063,7 @@ func main() {
 		}()
 	}
 
-	gen := env.MustTLC(common.TLCRun{Dir: "C13", Module: "PySeqGen", Config: "gen_" + cfgSuffix + ".cfg", Timeout: 12 * time.Minute,
+	gen := env.MustTLC(common.TLCRun{Dir: "C13", Module: "PySeqGen", Config: "gen_" + cfgSuffix + ".cfg", Timeout: 40 * time.Minute,
 		OnLine: func(b []byte) {
 			rec := &Rec{}
 			if err := json.Unmarshal(b, rec); err != nil {
